@@ -97,6 +97,7 @@ func c34Cores() []c34Core {
 				t.Fatalf("establish")
 			}
 			net.flushFIFO(50)
+			a.cmTick() // initialises the traffic wheel's clock, so that the advance below makes the tunnel's check due
 			vtime.Advance(2500 * vtime.Millisecond)
 			pkt := data(a, b, "TX")
 			return []func(){
@@ -114,6 +115,7 @@ func c34Cores() []c34Core {
 							break
 						}
 						a.cm.doTrafficCheck(idx, []byte(""), nb, out, now)
+						c34TrafficChecks++
 					}
 				},
 			}, net.close
@@ -219,6 +221,7 @@ func c34Cores() []c34Core {
 			cfg["static_host_map"] = m{"10.0.0.1": []string{"192.0.2.1:4242"}}
 			cfg["pki"].(m)["blocklist"] = []string{"00112233445566778899aabbccddeeff00112233445566778899aabbccddeeff"}
 			raw, _ := yaml.Marshal(cfg)
+			b.cmTick() // initialises the traffic wheel's clock
 			vtime.Advance(2500 * vtime.Millisecond)
 			return []func(){
 				func() { _ = b.c.ReloadConfigString(string(raw)) },
@@ -233,6 +236,7 @@ func c34Cores() []c34Core {
 							break
 						}
 						b.cm.doTrafficCheck(idx, []byte(""), nb, out, now)
+						c34TrafficChecks++
 					}
 				},
 			}, net.close
@@ -252,6 +256,9 @@ func c34Cores() []c34Core {
 		}},
 	}
 }
+
+// c34TrafficChecks counts doTrafficCheck calls of the current execution (written by one thread, read after the join).
+var c34TrafficChecks int
 
 type c34Result struct {
 	Core          string          `json:"core"`
@@ -294,6 +301,12 @@ func TestVerifC34Worker(t *testing.T) {
 			if cleanup != nil {
 				cleanup()
 			}
+			if strings.Contains(name, "traffic-check") || strings.Contains(name, "cert-check") {
+				if c34TrafficChecks == 0 && !x.Aborted {
+					t.Fatalf("vacuous core %s: no traffic check was executed", name)
+				}
+			}
+			c34TrafficChecks = 0
 		})
 		out := c34Result{Core: name, Bound: bound, Executions: res.Executions, ChoicePoints: res.ChoicePoints, Deadlocks: res.Deadlocks,
 			Horizon: res.Horizon, Nondet: res.Nondeterministic, Complete: res.Complete, ByPreemptions: res.ByPreemptions, FirstDeadlock: res.FirstDeadlock}
